@@ -152,6 +152,7 @@ def run(c):
     c.assumptions = ["in-memory key-value store stands for the disk store", "governance transactions are executed as chain.executeGovernanceTx does "
                      "(snapshot, ExecuteSystemTx/ExecuteNameTx, stage or roll back), block boundary = ChainStateDB.Apply + system.CommitParams(true)",
                      "graph replay: model heights are mapped onto block numbers by three order-preserving maps that keep the lock predicate (43200 blocks per height, and gaps 86399,1,86399,.. / 1,86399,1,.. which place transactions one block inside and exactly at the end of a lock period); the random histories use real block numbers",
+                     "graph replay under two amount scales: 1 model AERGO = 10^18 aer, and = ceil(2^80/20000) aer (consecutive model amounts differ in the byte length of their big-endian encoding); the random histories use 10^18",
                      "TLC 1.8.0"]
     # 1. + 2. design-level check and transition enumeration side by side (both are CPU bound, the machine has 16 cores)
     mc_cfg = "MC_Governance.cfg" if quick else "MC_Governance_big.cfg"
